@@ -4,6 +4,7 @@ import PegVerif.Proofs.Boundary
 import PegVerif.Proofs.PegRelation
 import PegVerif.Proofs.Termination
 import PegVerif.Proofs.RefineLR
+import PegVerif.Proofs.CompleteLR
 import PegVerif.Proofs.NonVacuity
 /-
   C01 – generated parsers recognise exactly the PEG language of the grammar.
@@ -127,6 +128,21 @@ theorem C01_leftrec_reference_unique (env : Env) (u : Nat) {n m : Nat} {rule inp
 theorem C01_leftrec_reference_conservative {env : Env} (hnl : NoLeftrec env.g) (u fuel : Nat) (rule : String)
     (inp : List UInt8) : SpecLR.parse env u fuel rule inp = Spec.parse env u fuel rule inp :=
   SpecLR.parse_eq_spec hnl u fuel rule inp
+
+/-- **completeness with left recursion**: whenever the growth semantics answers, the generated parser (model)
+    answers too, with enough fuel, and abstracts to that answer -/
+theorem C01_complete_leftrec (env : Env) (hp : PureHooks env.hooks) (hok : LROk env.g env.settings)
+    (rule : String) (inp : List UInt8) (u m : Nat) {r} (h : SpecLR.parse env u m rule inp = some r) :
+    ∃ n r' g', parseAdvanced env n rule inp u = some (r', g') ∧ abs r' = r :=
+  parse_completeLR env hp hok rule inp u m h
+
+/-- both directions: the model answers `r` (up to the error payload) iff the reference semantics with left recursion
+    does; in particular the generated parser terminates exactly when that semantics is defined -/
+theorem C01_iff_leftrec (env : Env) (hp : PureHooks env.hooks) (hok : LROk env.g env.settings)
+    (rule : String) (inp : List UInt8) (u : Nat) (r : Res Val) :
+    (∃ n r' g', parseAdvanced env n rule inp u = some (r', g') ∧ abs r' = r) ↔
+      (∃ m, SpecLR.parse env u m rule inp = some r) :=
+  parse_iffLR env hp hok rule inp u r
 
 /-- non-vacuity: the calculator tower `E = l:*E '+' r:T | t:T; T = l:*T '*' r:F | f:F; F = '(' e:*E ')' | n:Num` is
     in the class -/
